@@ -536,6 +536,8 @@ class Interp:
             if k in ('__parent__', '__qualname__', '__nonlocal__'):
                 continue
             cls.attrs[k] = v
+            if isinstance(v, FuncV):
+                v.owner_class = cls
         cls.annotations = ann
         if cls.is_enum:
             members = {}
@@ -586,6 +588,9 @@ class Interp:
         self.depth += 1
         if self.depth > 200:
             raise Unsupported('recursion depth')
+        if not hasattr(self, 'frames'):
+            self.frames = []
+        self.frames.append((getattr(fv, 'owner_class', None), args[0] if args else None))
         try:
             if isinstance(fv.node, ast.Lambda):
                 return self.eval(fv.node.body, env, fv.module)
@@ -595,6 +600,7 @@ class Interp:
             return r.v
         finally:
             self.depth -= 1
+            self.frames.pop()
         return None
 
     def _gen_body(self, fv, env):
@@ -746,6 +752,18 @@ class Interp:
             return v.m_getattr(self, name)
         if isinstance(v, Opaque):
             return Opaque(v.name + '.' + name)
+        if type(v).__name__ == 'SuperProxy':
+            mro = self.mro(v.obj.cls)
+            after = mro[mro.index(v.cls) + 1:] if v.cls in mro else []
+            for c in after:
+                if name in c.attrs:
+                    a = c.attrs[name]
+                    if isinstance(a, FuncV) and a.kind == 'function':
+                        return BoundMethod(a, v.obj)
+                    return a
+            if name == '__init__':
+                return Native('object.__init__', lambda *a, **k: None)
+            self.raise_('AttributeError', 'super().' + name)
         if isinstance(v, Sym) and v.is_gtype():
             # a symbolic gate type: branch over the types it can be on this path and use the real GateType constant
             gm = self.load_module('cirbo.core.circuit.gate')
@@ -761,6 +779,19 @@ class Interp:
         if m is not NOTFOUND:
             return m
         raise Unsupported(f'attribute {name} of {type(v).__name__}')
+
+    def mro(self, cls):
+        out = []
+
+        def walk(c):
+            if c in out:
+                return
+            out.append(c)
+            for b in c.bases:
+                if isinstance(b, ClassV):
+                    walk(b)
+        walk(cls)
+        return out
 
     def setattr(self, v, name, val):
         if isinstance(v, Obj):
@@ -1384,6 +1415,10 @@ class Interp:
                     return v
                 self.raise_('KeyError', repr(k))
             return self.dict_get(c, k, missing)
+        if isinstance(c, (bytes, bytearray)) and not isinstance(k, (Sym, slice)):
+            if k >= len(c) or k < -len(c):
+                self.raise_('IndexError', 'index out of range')
+            return c[k]
         if isinstance(c, (VList, tuple, str)):
             items = c.items if isinstance(c, VList) else c
             if isinstance(k, slice):
@@ -1445,6 +1480,15 @@ class Interp:
                 return
             c.d[k] = v
             return
+        if isinstance(c, bytearray):
+            if isinstance(k, Sym) or isinstance(v, Sym):
+                raise Unsupported('symbolic write into a concrete bytearray')
+            if k >= len(c) or k < -len(c):
+                self.raise_('IndexError', 'bytearray index out of range')
+            if not 0 <= v < 256:
+                self.raise_('ValueError', 'byte must be in range(0, 256)')
+            c[k] = v
+            return
         if isinstance(c, VList):
             if isinstance(k, slice):
                 c.items[k] = list(self.iterate(v))
@@ -1498,6 +1542,9 @@ class Interp:
         if isinstance(v, str):
             yield from v
             return
+        if isinstance(v, (bytes, bytearray)):
+            yield from list(v)
+            return
         if isinstance(v, VSet):
             yield from list(v.items)
             return
@@ -1533,6 +1580,19 @@ class Interp:
 
     def binop(self, op, a, b):
         T = type(op)
+        if isinstance(a, Obj) or isinstance(b, Obj):
+            dn = {ast.BitOr: 'or', ast.BitAnd: 'and', ast.Add: 'add', ast.Sub: 'sub', ast.Mult: 'mul', ast.BitXor: 'xor'}.get(T)
+            if dn:
+                if isinstance(a, Obj):
+                    f = a.cls.lookup(f'__{dn}__')
+                    if f is not NOTFOUND:
+                        r = self.call(f, [a, b], {})
+                        if not (isinstance(r, Opaque) and r.name == 'NotImplemented'):
+                            return r
+                if isinstance(b, Obj):
+                    f = b.cls.lookup(f'__r{dn}__')
+                    if f is not NOTFOUND:
+                        return self.call(f, [b, a], {})
         if isinstance(a, Opaque) or isinstance(b, Opaque):
             return a if isinstance(a, Opaque) else b
         sym = isinstance(a, Sym) or isinstance(b, Sym)
